@@ -3,10 +3,15 @@
 prompt handed to a fresh sub-agent (/tmp/scratch/prompt<round>_<id>.txt). The sub-agent gets the property text only, nothing
 from /verif. AVOID (optional, per id) names the site an earlier round already changed, to diversify."""
 import json, subprocess, sys, os
-AVOID = {'C01': 'StepAddress', 'C02': 'the rep/bkrep bookkeeping order in Interpreter::Run', 'C03': 'the operand negation in AddSub', 'C04': 'ShiftBus40 saturation', 'C05': 'the copy/terminate code of Teakra_Disasm_Do',
+AVOID2 = {'C01': 'StepAddress', 'C02': 'the rep/bkrep bookkeeping order in Interpreter::Run', 'C03': 'the operand negation in AddSub', 'C04': 'ShiftBus40 saturation', 'C05': 'the copy/terminate code of Teakra_Disasm_Do',
          'C06': 'Timer::Skip', 'C07': 'the latch sampling at the top of Interpreter::Run', 'C08': 'banke', 'C09': 'RestoreBlockRepeat', 'C10': 'StepAddress', 'C11': 'MemoryInterfaceUnit::InMMIO',
          'C12': 'MemoryInterfaceUnit::ToMMIO', 'C13': 'Dma::Channel::Start', 'C14': 'Apbp::SetSemaphore', 'C15': 'Timer::Skip', 'C16': 'Btdmp::Skip', 'C17': 'Timer::Reset', 'C18': 'RestoreBlockRepeat', 'C19': 'DataChannel::Recv', 'C20': 'the arp pseudo-register slots'}
+AVOID3 = {'C01': 'StepAddress or Exp', 'C02': 'the rep/bkrep bookkeeping in Interpreter::Run or GetDecoderTable', 'C03': 'AddSub or SatAndSetAccAndFlag', 'C04': 'ShiftBus40 or DoMultiplication', 'C05': 'Teakra_Disasm_Do or the mma_my_my renderer',
+         'C06': 'Timer::Skip or CoreTiming::Skip', 'C07': 'the latch sampling in Interpreter::Run or ICU::Trigger', 'C08': 'banke or ContextStore', 'C09': 'RestoreBlockRepeat or the block-end test in Interpreter::Run', 'C10': 'StepAddress or the epi/epj test in RnAndModify',
+         'C11': 'MemoryInterfaceUnit::InMMIO or MemoryInterface::ProgramRead/ProgramWrite', 'C12': 'MemoryInterfaceUnit::ToMMIO or Cell::BitFieldCell', 'C13': 'Dma::Channel::Start or the counter0 limit in Dma::Channel::Tick', 'C14': 'Apbp::SetSemaphore or Apbp::ClearSemaphore',
+         'C15': 'Timer::Skip or Timer::GetMaxSkip', 'C16': 'Btdmp::Skip or Btdmp::SetTransmitFlush', 'C17': 'Timer::Reset or Ahbm::Reset', 'C18': 'RestoreBlockRepeat or MemoryInterfaceUnit::ConvertDataAddress', 'C19': 'DataChannel::Recv or Apbp::SetSemaphore', 'C20': 'the arp pseudo-register slots or AccEProxy'}
 rnd = sys.argv[1]
+AVOID = AVOID3 if rnd == '3' else AVOID2
 ids = sys.argv[2:]
 os.makedirs('/tmp/scratch', exist_ok=True)
 for l in open('/verif/properties.jsonl'):
@@ -29,7 +34,7 @@ YOUR TASK: produce ONE small, realistic change to the library sources (files und
  (a) the project still compiles, and
  (b) the project's existing test suite still passes.
 Build: `cmake -G Ninja -B _build -S . && cmake --build _build` ; run tests: `ctest --test-dir _build --timeout 900` (all must still pass with your change).
-The change should look like something a developer could plausibly introduce by mistake (an off-by-one, a wrong mask, a swapped operand, a dropped update, a condition inverted in a corner case, a refactoring that is almost equivalent, ...). IMPORTANT: it must need something specific to manifest - a particular multi-step sequence of operations, an unusual input value or mode combination, a particular interleaving or cycle alignment, or two cooperating sites that each look fine alone - NOT something that ordinary use would expose immediately on the first call.{(' Do NOT make your change in ' + avoid + ' (that site has been used already); pick a different mechanism the property depends on.') if avoid else ''}
+The change should look like something a developer could plausibly introduce by mistake (an off-by-one, a wrong mask, a swapped operand, a dropped update, a condition inverted in a corner case, a refactoring that is almost equivalent, ...). IMPORTANT: it must need something specific to manifest - a particular multi-step sequence of operations, an unusual input value or mode combination, a particular interleaving or cycle alignment, or two cooperating sites that each look fine alone - NOT something that ordinary use would expose immediately on the first call.{(' Do NOT make your change in ' + avoid + ' (used already); pick a different mechanism the property depends on.') if avoid else ''}
 
 Also write a DEMONSTRATION: a small self-contained C++ program (put it in a new directory demo/ inside the worktree, e.g. demo/demo.cpp, plus demo/build.sh that compiles it against the library sources or the built static library in _build; build.sh must work when invoked as `sh demo/build.sh` from the worktree root and produce the executable demo/demo) that exits non-zero (and prints FAIL) WITH your change and exits 0 (prints PASS) WITHOUT it. You may use internal headers from src/ (compile with -I src -I include -I include/teakra/impl, C++17; private members can be reached with -fno-access-control if needed). Note: constructing a full Teakra::Teakra object costs a couple of seconds (it builds a 65536-entry decoder table) which is fine.
 
